@@ -61,6 +61,11 @@ class NodeParser(PushParser):
         except SyntaxError as e:
             raise ParserError(e)
 
+        derived = self.context.class_type.derived_element
+        if isinstance(result, derived) and result.value is None:
+            # A nil root element with a xsi:type, there is no object either
+            result = None
+
         if result is not None:
             return result
 
